@@ -57,7 +57,31 @@ def main(argv=None):
             site, in_repo = core.crash_site(e, boot.REPO)
             import traceback
             tb = traceback.format_exc()
-            if in_repo:
+            if in_repo and type(e).__name__ == 'LinAlgError' and not getattr(ctx, '_retrying', False):
+                # LAPACK non-convergence is charged only when it repeats (vt/monitor.py:_reproducible, DESIGN 6.3)
+                ctx._retrying = True
+                try:
+                    with core.case_watchdog(case_timeout):
+                        mod.run_case(ctx, case)
+                    ctx.note('unreproducible_LinAlgError_not_charged:case')
+                    in_repo = None
+                except core.Skip as s2:
+                    ctx.skip(s2.reason)
+                    in_repo = None
+                except core.VTTimeout:
+                    ctx.timeouts += 1
+                    in_repo = None
+                except (KeyboardInterrupt, SystemExit):
+                    raise
+                except BaseException as e2:   # noqa
+                    e = e2
+                    site, in_repo = core.crash_site(e, boot.REPO)
+                    tb = traceback.format_exc()
+                finally:
+                    ctx._retrying = False
+            if in_repo is None:
+                pass
+            elif in_repo:
                 key = mod.crash_key(ctx, case, e, site) if hasattr(mod, 'crash_key') else \
                     'crash/%s@%s' % (type(e).__name__, site)
                 if key is None:
